@@ -261,6 +261,9 @@ func randomFilterSpec(rng *Rng, names, srcs []string, few bool) FilterSpec {
 			return "Unknown"
 		case 2:
 			return strings.ToLower(pick(rng, srcs))
+		case 3:
+			// a listed source with blanks around it is the source of no lint (a filter compares sources exactly)
+			return pick(rng, []string{" ", "\n", "\t", ""}) + pick(rng, srcs) + pick(rng, []string{" ", "\n", "", "\r\n"})
 		}
 		return pick(rng, srcs)
 	}
@@ -391,6 +394,13 @@ func init() {
 			{IncludeSources: []string{"CABF_BR"}, ExcludeSources: []string{"CABF_BR"}}}
 		// options that are not empty and yet select every lint
 		specs = append(specs, FilterSpec{Regex: "^[enw]_"}, FilterSpec{Regex: "."}, FilterSpec{ExcludeSources: []string{"Unknown"}}, FilterSpec{IncludeSources: srcs}, FilterSpec{IncludeNames: names})
+		// sources spelt with blanks around them select (and drop) nothing
+		for i, sname := range srcs {
+			specs = append(specs, FilterSpec{ExcludeSources: []string{" " + sname}}, FilterSpec{IncludeSources: []string{sname + " "}})
+			if i%3 == 0 {
+				specs = append(specs, FilterSpec{IncludeSources: []string{sname}, ExcludeSources: []string{" " + sname + " "}}, FilterSpec{IncludeSources: []string{sname + "\n", sname}})
+			}
+		}
 		// anchored literals: a name that is a fragment of longer names, and a fragment that is no name at all
 		{
 			k := 0
